@@ -40,6 +40,14 @@ CHECKS = {
              'documents\' own key alphabet, and wrapped with an unrelated sibling sequence; results (or failure classes) must correspond.',
         note='Relation between runs of the implementation; documented exception for an explicit !del stage root with an empty result.',
         design='4/C05'),
+    'C07': dict(
+        technique='property-based testing (Hypothesis): provenance invariant over a recorder log (unique ids per target/code, unique markers per literal) across generated merge histories with safe/unsafe sources, includes and !unsafe tags',
+        text='Histories of 1-4 stages (direct or through !include, each with a source safe flag) writing function, scalar-dynamic and data slots '
+             'with argument/name overrides, placeholders and deletions, a few taint sources per case and permuted key order. Violation iff executed '
+             'code was defined by tainted content, or a tainted marker reached a call argument / a name resolved by evaluated code / a partial; '
+             'a failing build must stem from UnsafeError. One-directional by design (never asserts that safe nodes must run).',
+        note='Taint is syntactic (own document + source + including content). executed-clean class in evidence shows the campaign is not vacuous.',
+        design='4/C07'),
     'C08': dict(
         technique='property-based differential testing (Hypothesis): path-existence predicate over the config built so far + recursive-update fold, for !notnew documents and generated command-line overrides',
         text='Base configs with derived overriding documents carrying !notnew/!new on arbitrary nodes, and command-line strings built from existing '
